@@ -35,6 +35,13 @@ func init() {
 	}
 	execs["ed.sign"] = func(a []string) string {
 		k, m := unhx(a[0]), unhx(a[1])
+		// the caller's buffers are reused from call to call (a retained alias of an earlier key or message would see this)
+		if len(k) <= len(edKeyBuf) {
+			k = edKeyBuf[:copy(edKeyBuf[:], k)]
+		}
+		if len(m) > 0 && len(m) <= len(edMsgBuf) {
+			m = edMsgBuf[:copy(edMsgBuf[:], m)]
+		}
 		s := ed25519.Sign(ed25519.PrivateKey(k), m)
 		s2 := ed25519.Sign(ed25519.PrivateKey(k), m)
 		if !bytes.Equal(s, s2) {
@@ -61,6 +68,12 @@ func init() {
 	}
 	execs["ed.verify"] = func(a []string) string {
 		pk, m, s := unhx(a[0]), unhx(a[1]), unhx(a[2])
+		if len(pk) <= len(edPubBuf) {
+			pk = edPubBuf[:copy(edPubBuf[:], pk)]
+		}
+		if len(s) <= len(edSigBuf) {
+			s = edSigBuf[:copy(edSigBuf[:], s)]
+		}
 		v := ed25519.Verify(ed25519.PublicKey(pk), m, s)
 		if len(pk) == 32 && stded.Verify(stded.PublicKey(pk), m, s) && !v {
 			return "STD-ACCEPTS-WE-REJECT"
@@ -154,6 +167,29 @@ func bigLE32(x *big.Int) []byte {
 		}
 	}
 	return out
+}
+
+var (
+	edKeyBuf [64]byte
+	edMsgBuf [16384]byte
+	edPubBuf [32]byte
+	edSigBuf [64]byte
+)
+
+// sigForKeyBytes signs m with the secret of `seed` but hashes the given key BYTES into k: the result verifies under a
+// verifier that (wrongly) pairs those bytes with the honest key's point, e.g. through a stale cache.
+func sigForKeyBytes(g *G, seed, m, keyBytes []byte) []byte {
+	h := sha512.Sum512(seed)
+	a, _ := edwards25519.NewScalar().SetBytesWithClamping(h[:32])
+	r, _ := edwards25519.NewScalar().SetUniformBytes(g.r.bytes(64))
+	R := new(edwards25519.Point).ScalarBaseMult(r)
+	kh := sha512.New()
+	kh.Write(R.Bytes())
+	kh.Write(keyBytes)
+	kh.Write(m)
+	k, _ := edwards25519.NewScalar().SetUniformBytes(kh.Sum(nil))
+	S := edwards25519.NewScalar().MultiplyAdd(k, a, r)
+	return append(R.Bytes(), S.Bytes()...)
 }
 
 // torsionSig builds a signature for message m under the key A' = A + tA with R' = R + tR:
@@ -289,6 +325,28 @@ func genC01(g *G) {
 			R.Add(R, tors[(ai+si)%8])
 			emit(pk, g.r.bytes(g.r.intn(8)), append(R.Bytes(), bigLE32(sv)...))
 		}
+	}
+	// history: the verdict for (key, msg, sig) must not depend on which keys were verified before. After a successful
+	// Verify under an honest key, keys that do not decode (and keys of other points) are presented together with a signature
+	// that would verify if the previous key's point were still used with the new key's bytes; each twice in a row.
+	for i := 0; i < 6; i++ {
+		seed := g.r.bytes(32)
+		priv := ed25519.NewKeyFromSeed(seed)
+		m := g.r.bytes(g.r.intn(30))
+		emit(priv[32:], m, ed25519.Sign(priv, m))
+		var other []byte
+		switch i % 3 {
+		case 0: // not a point: y = 2 is not on the curve
+			other = append([]byte{2}, make([]byte, 31)...)
+		case 1: // random bytes (half of them are not points)
+			other = g.r.bytes(32)
+		case 2: // another honest key
+			other = ed25519.NewKeyFromSeed(g.r.bytes(32))[32:]
+		}
+		forged := sigForKeyBytes(g, seed, m, other)
+		emit(other, m, forged)
+		emit(other, m, forged)
+		emit(priv[32:], m, forged)
 	}
 	// honest key, small-order / non-canonical R and vice versa
 	for _, e := range smallOrder {
